@@ -2,7 +2,7 @@
     exactly -- each request gets exactly its body, no body byte is parsed as a request. *)
 From Coq Require Import List NArith Bool Arith Lia ZifyBool.
 From TwLib Require Import HttpGrammar HttpRender.
-From C22 Require Import Gen Model Proofs SegProofs RoundTrip Final.
+From C22 Require Import Gen Model Proofs SegProofs RoundTrip Final Lengths.
 From C19 Require Import Model Proofs ReqLine.
 Import ListNotations.
 
@@ -195,4 +195,255 @@ Proof.
     + simpl in Hfuel. lia.
     + lia.
     + unfold flush. rewrite Hl. rewrite <- Hl. exact Eh.
+Qed.
+
+(** ---- fuel of the whole-stream parser ---- *)
+Lemma read_line_len : forall s line rest, read_line s = Some (line, rest) -> length rest + 2 <= length s.
+Proof.
+  intros s line rest H. unfold read_line in H. destruct (find_crlf s) as [i|] eqn:E; [|discriminate].
+  inversion H; subst. pose proof (find_crlf_bound _ _ E). rewrite skipn_length. lia.
+Qed.
+
+Lemma headers_loop_len : forall fuel s pend h size h' r2,
+  headers_loop fuel s pend h size = HDone h' r2 -> length r2 + 2 <= length s.
+Proof.
+  induction fuel as [|fuel IH]; intros s pend h size h' r2 H; [discriminate|].
+  cbn [headers_loop] in H. destruct (read_line s) as [[line rest]|] eqn:Er; [|discriminate].
+  pose proof (read_line_len _ _ _ Er) as Hl.
+  destruct (N.ltb _ _); [discriminate|].
+  destruct line as [|c l].
+  - destruct (flush h pend); [|discriminate]. inversion H; subst. exact Hl.
+  - destruct (is_ws c).
+    + apply IH in H. lia.
+    + destruct (flush h pend); [|discriminate]. apply IH in H. lia.
+Qed.
+
+Lemma serve_S : forall f s sk size0, serve true (S f) s sk size0 =
+  match read_line s with
+  | None => ([], EWait)
+  | Some (line, rest) =>
+      let size := (size0 + N.of_nat (length line))%N in
+      if N.ltb total_headers_size size then ([], EBad) else
+      if (is_nil line && negb sk)%bool then serve true f rest true size else
+      match parse_request_line true line with
+      | None => ([], EBad)
+      | Some (m, t, v) =>
+          match headers_loop (S (length rest)) rest [] (mkh DNone [] 0) size with
+          | HBad => ([], EBad)
+          | HWait => ([], EWait)
+          | HDone h rest2 =>
+              let deliver body rest3 :=
+                let r := mkreq m t v (h_hdrs h) body in
+                if persistent v (h_hdrs h)
+                then let '(rs, e) := serve true f rest3 false 0%N in (r :: rs, e)
+                else ([r], EClosed) in
+              match h_dec h with
+              | DNone => deliver [] rest2
+              | DLen n =>
+                  if N.leb n (N.of_nat (length rest2))
+                  then deliver (firstn (N.to_nat n) rest2) (skipn (N.to_nat n) rest2)
+                  else ([], EWait)
+              | DChunk =>
+                  match rest2 with
+                  | [] => ([], EWait)
+                  | _ =>
+                      match decode true default_maxtr [rest2] with
+                      | (body, Finished extra) => deliver body extra
+                      | (_, Failed _) => ([], EBad)
+                      | (_, Need) => ([], EWait)
+                      end
+                  end
+              end
+          end
+      end
+  end.
+Proof. reflexivity. Qed.
+
+Lemma serve_fuel : forall f1 f2 s sk size0, length s < f1 -> length s < f2 ->
+  serve true f1 s sk size0 = serve true f2 s sk size0.
+Proof.
+  induction f1 as [|f1 IH]; intros f2 s sk size0 H1 H2; [lia|].
+  destruct f2 as [|f2]; [lia|]. rewrite !serve_S.
+  destruct (read_line s) as [[line rest]|] eqn:Er; [|reflexivity].
+  pose proof (read_line_len _ _ _ Er) as Hl. cbv zeta.
+  destruct (N.ltb _ _); [reflexivity|].
+  destruct (is_nil line && negb sk)%bool; [apply IH; lia|].
+  destruct (parse_request_line true line) as [[[m t] v]|]; [|reflexivity].
+  destruct (headers_loop _ rest [] _ _) as [| |h rest2] eqn:Eh; try reflexivity.
+  pose proof (headers_loop_len _ _ _ _ _ _ _ Eh) as Hl2.
+  destruct (h_dec h) as [|n|].
+  - destruct (persistent v (h_hdrs h)); [|reflexivity]. rewrite (IH f2) by lia. reflexivity.
+  - destruct (N.leb n (N.of_nat (length rest2))); [|reflexivity].
+    destruct (persistent v (h_hdrs h)); [|reflexivity].
+    rewrite (IH f2) by (rewrite skipn_length; lia). reflexivity.
+  - destruct rest2 as [|r0 rl]; [reflexivity|].
+    destruct (decode true default_maxtr _) as [body [|extra|e]] eqn:Ed; try reflexivity.
+    pose proof (decode_fin_length _ _ _ _ _ Ed) as Hx.
+    destruct (persistent v (h_hdrs h)); [|reflexivity]. rewrite (IH f2) by lia. reflexivity.
+Qed.
+
+(** ---- one well-formed request at the front of the stream ---- *)
+Inductive wire_ok : framing -> bytes -> bytes -> Prop :=
+| WNone : wire_ok FNoBody [] []
+| WLen : forall body, wire_ok (FLength (N.of_nat (length body))) body body
+| WChunk : forall cs z ze ts,
+    forallb wf_chunk cs = true -> wf_last z ze = true -> forallb wf_trailer ts = true ->
+    (trailers_size ts + 2 <= default_maxtr)%N ->
+    wire_ok FChunked (encode cs z ze ts) (concat (map c_data cs)).
+
+Lemma fields_len : forall fs : list (bytes * bytes),
+  length fs <= length (flat_map (fun f => field_line f ++ CRLFo) fs).
+Proof.
+  induction fs as [|f r IH]; simpl; [lia|]. rewrite !app_length. simpl. lia.
+Qed.
+
+Lemma request_parsed : forall m t v fs fr wire body rest,
+  rfc_request_line_fields m t v = true ->
+  forallb wf_field fs = true ->
+  length fs <= max_headers ->
+  (N.of_nat (length (request_line m t v)) + fields_size fs <= total_headers_size)%N ->
+  no_identity fs = true -> cl_short fs = true ->
+  rfc_request_framing (cls_of fs) (tes_of fs) = Some fr ->
+  wire_ok fr wire body ->
+  serve_stream true (render_head m t v fs ++ wire ++ rest) =
+    (let r := mkreq m t v (map norm fs) body in
+     if persistent v (map norm fs)
+     then let '(rs, e) := serve_stream true rest in (r :: rs, e)
+     else ([r], EClosed)).
+Proof.
+  intros m t v fs fr wire body rest Hrl Hw Hcount Hsize Hid Hsh Hfr Hwire.
+  pose proof (framing_partial fs Hid Hsh) as Hfp. rewrite Hfr in Hfp.
+  destruct (choose fs DNone) as [d|] eqn:Ech; [|discriminate]. simpl in Hfp. inversion Hfp as [Hd]; clear Hfp.
+  pose proof (fold_fields_wf fs (mkh DNone [] 0) d Hw Ech ltac:(simpl; lia)) as Hfold. simpl in Hfold.
+  set (rest1 := flat_map (fun f => field_line f ++ CRLFo) fs ++ CRLFo ++ wire ++ rest).
+  assert (Hs : render_head m t v fs ++ wire ++ rest = request_line m t v ++ CRLFo ++ rest1).
+  { unfold render_head, rest1. rewrite <- !app_assoc. reflexivity. }
+  rewrite Hs. unfold serve_stream. rewrite serve_S.
+  rewrite (read_line_at _ rest1 (request_line_no_crlf m t v Hrl)). cbv zeta.
+  assert (Hfs : (0 <= fields_size fs)%N) by lia.
+  destruct (N.ltb total_headers_size (0 + N.of_nat (length (request_line m t v)))) eqn:E1; [lia|].
+  assert (Hnil : is_nil (request_line m t v) = false).
+  { unfold rfc_request_line_fields in Hrl. apply andb_true_iff in Hrl. destruct Hrl as [Hrl _].
+    apply andb_true_iff in Hrl. destruct Hrl as [Hrl _]. apply andb_true_iff in Hrl. destruct Hrl as [Hm _].
+    destruct (token_chars_ok m Hm) as [_ Hne]. destruct m; [congruence|reflexivity]. }
+  rewrite Hnil. cbn [andb].
+  rewrite (proj2 (request_line_exact (request_line m t v) m t v) (conj eq_refl Hrl)).
+  unfold rest1 at 2.
+  assert (Hfuel : length fs < S (length rest1)).
+  { pose proof (fields_len fs) as Hfl. unfold rest1. rewrite app_length. apply Nat.lt_succ_r.
+    eapply Nat.le_trans; [exact Hfl|apply Nat.le_add_r]. }
+  rewrite (headers_loop_fields fs [] (mkh DNone [] 0) (0 + N.of_nat (length (request_line m t v)))%N
+             (S (length rest1)) (wire ++ rest) (mkh DNone [] 0) _ Hfuel ltac:(lia) Hw eq_refl Hfold).
+  cbn [h_dec h_hdrs].
+  assert (Hrec : forall r3, length r3 <= length (wire ++ rest) ->
+            serve true (length (request_line m t v ++ CRLFo ++ rest1)) r3 false 0%N = serve_stream true r3).
+  { intros r3 Hr3. unfold serve_stream. apply serve_fuel; [|lia].
+    unfold rest1. rewrite !app_length in *. simpl. lia. }
+  destruct Hwire as [|body0|cs z ze ts Hcs Hl Hts Hsz].
+  - destruct d; simpl in Hd; try discriminate. cbn [app]. rewrite Hrec by (simpl; lia). reflexivity.
+  - destruct d as [|n|]; simpl in Hd; try discriminate. inversion Hd; subst n.
+    destruct (N.leb (N.of_nat (length body0)) (N.of_nat (length (body0 ++ rest)))) eqn:E2;
+      [|rewrite app_length in E2; lia].
+    rewrite Nat2N.id, firstn_app_exact, skipn_app_exact. rewrite Hrec by (rewrite app_length; lia). reflexivity.
+  - destruct d; simpl in Hd; try discriminate.
+    assert (Hne : encode cs z ze ts ++ rest <> []).
+    { unfold encode. destruct (wf_last_spec z ze Hl) as [Hz _]. destruct (hexint_digits _ _ Hz) as [_ Hzn].
+      destruct (flat_map enc_chunk cs); [|discriminate]. simpl. unfold enc_sizeline. destruct z; [congruence|discriminate]. }
+    destruct (encode cs z ze ts ++ rest) as [|e0 el] eqn:Ee; [congruence|].
+    match goal with |- context [decode true default_maxtr ?a] =>
+      replace (decode true default_maxtr a) with (concat (map c_data cs), Finished rest)
+        by (symmetry; apply (roundtrip default_maxtr cs z ze ts rest); try assumption;
+            simpl; rewrite app_nil_r; symmetry; exact Ee)
+    end.
+    rewrite Hrec by (first [rewrite <- Ee, app_length; lia | rewrite app_length; lia]). reflexivity.
+Qed.
+
+(** ---- pipelines ---- *)
+Record wreq := mkw { w_m : bytes; w_t : bytes; w_v : bytes; w_fields : list (bytes * bytes);
+                     w_fr : framing; w_wire : bytes; w_body : bytes }.
+
+(* a request as RFC 9112 lets a client write it (canonical field lines), within the server's limits *)
+Definition wf_wreq (q : wreq) : Prop :=
+  rfc_request_line_fields (w_m q) (w_t q) (w_v q) = true /\
+  forallb wf_field (w_fields q) = true /\
+  length (w_fields q) <= max_headers /\
+  (N.of_nat (length (request_line (w_m q) (w_t q) (w_v q))) + fields_size (w_fields q) <= total_headers_size)%N /\
+  no_identity (w_fields q) = true /\ cl_short (w_fields q) = true /\
+  rfc_request_framing (cls_of (w_fields q)) (tes_of (w_fields q)) = Some (w_fr q) /\
+  wire_ok (w_fr q) (w_wire q) (w_body q).
+
+Definition render (q : wreq) : bytes := render_head (w_m q) (w_t q) (w_v q) (w_fields q) ++ w_wire q.
+Definition parsed (q : wreq) : req := mkreq (w_m q) (w_t q) (w_v q) (map norm (w_fields q)) (w_body q).
+Definition keeps_alive (q : wreq) : bool := persistent (w_v q) (map norm (w_fields q)).
+
+Lemma one_request : forall q rest, wf_wreq q ->
+  serve_stream true (render q ++ rest) =
+  if keeps_alive q then let '(rs, e) := serve_stream true rest in (parsed q :: rs, e) else ([parsed q], EClosed).
+Proof.
+  intros q rest (H1 & H2 & H3 & H4 & H5 & H6 & H7 & H8). unfold render. rewrite <- app_assoc.
+  apply (request_parsed _ _ _ _ (w_fr q)); assumption.
+Qed.
+
+Lemma pipeline : forall qs tail, Forall wf_wreq qs -> forallb keeps_alive qs = true ->
+  serve_stream true (flat_map render qs ++ tail) =
+  let '(rs, e) := serve_stream true tail in (map parsed qs ++ rs, e).
+Proof.
+  induction qs as [|q qs IH]; intros tail Hw Hk.
+  - simpl. destruct (serve_stream true tail). reflexivity.
+  - inversion Hw as [|? ? Hq Hqs]; subst. simpl in Hk. apply andb_true_iff in Hk. destruct Hk as [Hk1 Hk2].
+    simpl flat_map. rewrite <- app_assoc. rewrite (one_request q _ Hq), Hk1, (IH tail Hqs Hk2).
+    destruct (serve_stream true tail). reflexivity.
+Qed.
+
+Lemma pipeline_complete : forall qs, Forall wf_wreq qs -> forallb keeps_alive qs = true ->
+  serve_stream true (flat_map render qs) = (map parsed qs, EWait).
+Proof.
+  intros qs Hw Hk. rewrite <- (app_nil_r (flat_map render qs)). rewrite (pipeline qs [] Hw Hk).
+  simpl. rewrite app_nil_r. reflexivity.
+Qed.
+
+Lemma pipeline_close : forall qs q junk, Forall wf_wreq qs -> forallb keeps_alive qs = true ->
+  wf_wreq q -> keeps_alive q = false ->
+  serve_stream true (flat_map render qs ++ render q ++ junk) = (map parsed qs ++ [parsed q], EClosed).
+Proof.
+  intros qs q junk Hw Hk Hq Hc. rewrite (pipeline qs _ Hw Hk), (one_request q junk Hq), Hc. reflexivity.
+Qed.
+
+Lemma bad_request_line : forall qs l junk, Forall wf_wreq qs -> forallb keeps_alive qs = true ->
+  find_crlf l = None -> l <> [] -> (N.of_nat (length l) <= total_headers_size)%N ->
+  (forall m t v, l = request_line m t v -> rfc_request_line_fields m t v = false) ->
+  serve_stream true (flat_map render qs ++ l ++ CRLFo ++ junk) = (map parsed qs, EBad).
+Proof.
+  intros qs l junk Hw Hk Hnc Hne Hsz Hbad. rewrite (pipeline qs _ Hw Hk).
+  unfold serve_stream. rewrite serve_S, (read_line_at l junk Hnc). cbv zeta.
+  destruct (N.ltb total_headers_size (0 + N.of_nat (length l))) eqn:E; [lia|].
+  assert (Hn : is_nil l = false) by (destruct l; [congruence|reflexivity]). rewrite Hn. cbn [andb].
+  destruct (parse_request_line true l) as [[[m t] v]|] eqn:Ep.
+  - apply request_line_exact in Ep. destruct Ep as [El Hf]. rewrite (Hbad m t v El) in Hf. discriminate.
+  - rewrite app_nil_r. reflexivity.
+Qed.
+
+(** a non-trivial instance of [wf_wreq]: POST /a HTTP/1.1, a Host field, Transfer-Encoding: chunked,
+    two chunks (the second chunk's data is the text of a request line), one trailer line *)
+Definition ex_chunks : list chunk :=
+  [mkchunk [51]%N None [97; 98; 99]%N;
+   mkchunk [49; 48]%N (Some [120; 61; 121]%N) [71;69;84;32;47;101;32;72;84;84;80;47;49;46;49;13]%N].
+Definition ex_req : wreq :=
+  mkw [80;79;83;84]%N [47;97]%N HTTP_1_1
+      [([72;111;115;116]%N, [104]%N);
+       ([84;114;97;110;115;102;101;114;45;69;110;99;111;100;105;110;103]%N, [67;104;117;110;107;101;100]%N)]
+      FChunked (encode ex_chunks [48]%N None [[84;58;32;118]%N]) (concat (map c_data ex_chunks)).
+Example ex_req_wf : wf_wreq ex_req /\ keeps_alive ex_req = true.
+Proof.
+  split; [|vm_compute; reflexivity].
+  unfold wf_wreq.
+  refine (conj _ (conj _ (conj _ (conj _ (conj _ (conj _ (conj _ _))))))).
+  - vm_compute; reflexivity.
+  - vm_compute; reflexivity.
+  - apply Nat.leb_le. vm_compute. reflexivity.
+  - apply N.leb_le. vm_compute. reflexivity.
+  - vm_compute; reflexivity.
+  - vm_compute; reflexivity.
+  - vm_compute; reflexivity.
+  - apply WChunk; try (vm_compute; reflexivity). apply N.leb_le. vm_compute. reflexivity.
 Qed.
